@@ -219,3 +219,19 @@ def register(claim):
         'documented upstream limitation and are not claimed.',
         'algebraic value numbering vs independent reference kinematics, decided by random interpretation',
         'DESIGN.md §3 C01')
+
+  claim('C08', 'other',
+        'Static law check: forward, world_to_joint and inverse (with link_to_joint_frame, '
+        'axis_angle_ang, orthogonals and scan.py) are abstractly interpreted from their AST on '
+        'symbolic models and composed; the composition returns the input joint positions for free '
+        'links, single hinge / slide joints (arbitrary axes, offset anchors), slide-only stacks and '
+        'slides followed by one hinge (orthogonal axes, either handedness), and the joint velocities '
+        'for free links and single hinges -- an identity decided by random interpretation with unit '
+        'quaternions / axes by construction and sqrt(x)^2 = x.  With the kinematics functions '
+        'opaque, the q, qd (and j, jd, a_p, a_c) reported by spring / positional init and step are '
+        'shown to be computed from exactly the link poses stored in the same state.',
+        'Trusted: python ast, AVN interpreter, arctan2(K sin t, K cos t) = t for K > 0 inside the Euler '
+        'chart, modular square root as the positive norm.  Not decided: the middle Euler angle of 2-3 '
+        'hinge stacks (arccos * sign); prismatic / stacked velocity round trip (documented upstream limitation).',
+        'composed algebraic value numbering (round-trip law) by random interpretation + opaque-callee provenance',
+        'DESIGN.md §3 C08')
